@@ -552,7 +552,7 @@ func (ps *PathSum) dedupe(in []*psOutcome) []*psOutcome {
 }
 
 // dropFrameCells removes the cells of a finished activation unless still referenced.
-func dropFrameCells(s *psState, id int, rets []string) {
+func (ps *PathSum) dropFrameCells(s *psState, id int, rets []string) {
 	tag := fmt.Sprintf("#%d", id)
 	var victims []string
 	for k := range s.cells {
@@ -567,6 +567,24 @@ func dropFrameCells(s *psState, id int, rets []string) {
 	for k, v := range s.cells {
 		if !strings.Contains(k, tag) {
 			ref += "|" + v
+		}
+	}
+	// a closure that escapes (returned, or stored) keeps the variables it captured alive
+	for round := 0; round < 3; round++ {
+		grew := false
+		for id, cl := range ps.closures {
+			if !strings.Contains(ref, id) {
+				continue
+			}
+			for _, b := range cl.binds {
+				if b != "" && !strings.Contains(ref, b) {
+					ref += "|" + b
+					grew = true
+				}
+			}
+		}
+		if !grew {
+			break
 		}
 	}
 	for _, k := range victims {
@@ -789,7 +807,7 @@ func (ps *PathSum) exec(s *psState, f *psFrame) []*psOutcome {
 			for _, r := range x.Results {
 				rs = append(rs, ps.val(f, r))
 			}
-			dropFrameCells(s, f.id, rs)
+			ps.dropFrameCells(s, f.id, rs)
 			return []*psOutcome{{S: s, Rets: rs}}
 		case *ssa.Panic:
 			ps.emit(s, f, x.Pos(), "Panic", ps.val(f, x.X))
